@@ -1,4 +1,5 @@
 import Proofs.CodecRT
+import Proofs.CodecDec
 import Proofs.TopicBasic
 import Proofs.TopicMatch
 import Proofs.TopicOps
